@@ -471,8 +471,18 @@ func (o *c13Oracle) AfterRun(w *World, op *Op, res *RunResult) {
 			w.Fail("invariance:run-failed", "Run{-c} after invariance operations failed: %s %s", res.Stage, res.Err)
 			return
 		}
-		if len(res.Plan) > 0 {
-			w.Fail("invariance:unchanged-config-looks-changed", "after %s Run{-c} plans %v", invOps(w.Plan), res.PlannedAliases())
+		// entities that appeared after the generation run have no stored hash to compare with; only
+		// entities generated back then count as "unchanged configuration"
+		var stale []string
+		for _, c := range res.Plan {
+			if e := w.EntByAlias(c.Alias); e != nil {
+				if _, had := o.hashBefore[e.ID]; had {
+					stale = append(stale, c.Alias)
+				}
+			}
+		}
+		if len(stale) > 0 {
+			w.Fail("invariance:unchanged-config-looks-changed", "after %s Run{-c} plans %v (of %v)", invOps(w.Plan), stale, res.PlannedAliases())
 		}
 	case op.HasTag("force") && arm == "invariance":
 		if !res.OK() {
@@ -505,7 +515,19 @@ func exploreC13Invariance(t *testing.T, seed uint64, idx int, tier string, sink 
 	n := r.Range(1, 4)
 	cur, curProf := tgt.Clone(), prof.Clone()
 	for i := 0; i < n; i++ {
-		switch r.Intn(6) {
+		switch r.Intn(8) {
+		case 6: // another entity appears in the directory (same profile, same issuer): walk order and
+			// whatever state is shared between entities change, the target's configuration does not
+			sib := &EntitySpec{ID: fmt.Sprintf("s%d", i), Name: Pick(r, []string{"aaa", "sibling", "zzz", "t0", "target2"}) + fmt.Sprint(i), Ext: "yaml", Issuer: "root-a",
+				Subject: genSubject(r, "s"), Profile: cur.Profile, Exts: genExts(r, 3, true), Dir: Pick(r, dirPool)}
+			addOp(Op{K: "put-ent", Spec: sib, Label: "add-sibling"})
+			did = append(did, "add-sibling")
+		case 7: // another profile and unrelated files appear
+			np := genSimpleProfile(r, fmt.Sprintf("other%d", i))
+			np.File = Pick(r, []string{"a-profile", "zz-profile"}) + fmt.Sprint(i)
+			addOp(Op{K: "put-prof", Prof: np, Label: "add-profile"})
+			addOp(Op{K: "put-file", Path: "notes.txt", Data: "x"})
+			did = append(did, "add-profile")
 		case 0:
 			secs := []int64{1, 59, 3600, 86400, 86400 * 400, 86400 * 365 * 30}
 			addOp(Op{K: "clock", N: Pick(r, secs)})
